@@ -16,7 +16,7 @@ theorem pinv_build_golang (cfg : Cfg) (load : Bool) (lr : LoadRes) (s : St) (d :
   clear hi
   simp only [pinv, Bool.and_eq_true] at h
   replace h := h.2
-  obtain ⟨hasCache, state, locked, tracker, calling, status, tRef, pRef, specT, userT, specP, userP, lT, lP, hsS, hsE, hT, hP, raw, ts, shares, filled, held, done⟩ := s
+  obtain ⟨hasCache, state, locked, tracker, calling, status, tRef, pRef, specT, userT, specP, userP, lT, lP, hsS, hsE, hT, hP, raw, ts, shares, filled, held, done, bfresh⟩ := s
   obtain ⟨cache, built, ddone, injT, injP, fresh⟩ := d
   obtain ⟨golang, custom, cT, cP, skip, disabled⟩ := cfg
   simp only at hg hdn; subst hg; subst hdn
@@ -111,5 +111,23 @@ theorem pinv_build (cfg : Cfg) (hwf : cfg.WF = true) (load : Bool) (lr : LoadRes
   cases hg : cfg.golang with
   | false => exact pinv_build_parrot cfg load lr s d hg hwf h hdn
   | true => exact pinv_build_golang cfg load lr s d hg h hdn
+
+/-- a full build leaves the binder of the marshalled hello computed over exactly the bytes it
+marshalled — on every full build, also on a locked connection and whatever was edited in between
+(so the binder `Handshake` sends is the binder of the bytes it sends). -/
+theorem build_binder_fresh (cfg : Cfg) (lr : LoadRes) (s : St) (hg : cfg.golang = false)
+    (h : inv cfg s = true) (hd : s.hsDone = false) (hok : (buildHandshakeState cfg true lr s).2 = none) :
+    ((buildHandshakeState cfg true lr s).1.state != .pskAllSet || (buildHandshakeState cfg true lr s).1.binderFresh) = true := by
+  have hb := build_parrot cfg true lr s hg h hd
+  generalize buildHandshakeState cfg true lr s = r at hb hok ⊢
+  obtain ⟨s', o⟩ := r
+  simp only at hok; subst hok
+  rcases hb with ⟨_, hs⟩ | ⟨_, s1, _, ht⟩
+  · simp only [lockedSame, Bool.and_eq_true] at hs
+    have := hs.1.1.1.1.1.1.1.1.1.1.1.1.1
+    simpa using this
+  · simp only [tailOk, Bool.and_eq_true] at ht
+    have := ht.1.1.1.1.1.1.1.1.1.1
+    simpa using this
 
 end SessionCtl
